@@ -29,6 +29,7 @@ type s4Obl struct {
 	idx   int
 	deep  bool
 	field int
+	one   bool // exactly one load from the parameter (see pRoot.one)
 }
 
 type s4Finding struct {
@@ -158,7 +159,20 @@ func (c *s4ctx) allowed(s s4Site) (reason string, note bool) {
 		// 3. a metric accumulates into its own counters
 		//    (matched by package and type, not by function or field name: the counters may live in an embedded
 		//    helper struct and be updated by its methods)
-		if isField && c.fnAccumulate != nil && core.PkgPathOf(s.fn) == core.PkgMetrics && fr.Struct.Obj().Pkg() != nil && fr.Struct.Obj().Pkg().Path() == core.PkgMetrics && !c.e.pointerful(x.Val.Type()) {
+		mfr, mIsField := fr, isField
+		if !mIsField {
+			// an element of an array-valued counter field: &c.seen[i]
+			a := x.Addr
+			for i := 0; i < 4; i++ {
+				ia, ok := a.(*ssa.IndexAddr)
+				if !ok {
+					break
+				}
+				a = ia.X
+			}
+			mfr, mIsField = asFieldAddr(a)
+		}
+		if mIsField && c.fnAccumulate != nil && core.PkgPathOf(s.fn) == core.PkgMetrics && mfr.Struct.Obj().Pkg() != nil && mfr.Struct.Obj().Pkg().Path() == core.PkgMetrics && !c.e.pointerful(x.Val.Type()) {
 			onlyParams := true
 			for r := range c.e.get(s.addr) {
 				if r.kind != rkParam && r.kind != rkLocal {
@@ -242,7 +256,7 @@ func (c *s4ctx) checkSite(s s4Site, ordinal map[string]int) {
 			bad = true
 			c.r.Undecide("S4.write", key, what, pos, fmt.Sprintf("the written location %s comes from %s", expr, c.e.rootString(r)))
 		case rkParam:
-			start := s4Obl{r.fn, r.idx, r.deep, r.field}
+			start := s4Obl{r.fn, r.idx, r.deep, r.field, r.one}
 			first := fmt.Sprintf("%s %s at %s in %s writes %s", s.kind, expr, pos, key, c.e.rootString(r))
 			fs := c.collect(start, first)
 			if len(fs) == 0 {
@@ -331,6 +345,8 @@ func (c *s4ctx) nodeFor(k s4Obl) *s4Node {
 	what := "parameter " + pn
 	if k.deep {
 		what = "memory loaded from parameter " + pn
+	} else if k.one {
+		what = "the memory parameter " + pn + " points to"
 	}
 	if s45_isPublicEntry(k.fn) {
 		n.findings = append(n.findings, s4Finding{key: fk + "." + pn,
@@ -360,9 +376,12 @@ func (c *s4ctx) nodeFor(k s4Obl) *s4Node {
 			continue
 		}
 		roots := rootSet{}
-		if k.deep {
+		switch {
+		case k.deep:
 			e.deepOf(s45_withField(e.get(arg), k.field), roots)
-		} else {
+		case k.one:
+			e.loadOf(s45_withField(e.get(arg), k.field), roots)
+		default:
 			roots.addAll(s45_withField(e.get(arg), k.field))
 		}
 		argExpr := s45_clip(s45_renderVal(arg, 0), 60)
@@ -375,7 +394,7 @@ func (c *s4ctx) nodeFor(k s4Obl) *s4Node {
 				if k.deep {
 					via = fmt.Sprintf("%s passes %s for %s of %s at %s, through which %s is reachable", ck, argExpr, pn, k.fn.Name(), spos, e.rootString(r))
 				}
-				n.next = append(n.next, s4Edge{s4Obl{r.fn, r.idx, r.deep, r.field}, via})
+				n.next = append(n.next, s4Edge{s4Obl{r.fn, r.idx, r.deep, r.field, r.one}, via})
 				if r.fn != k.fn || r.idx != k.idx {
 					notes = append(notes, fmt.Sprintf("%s forwards its %s", ck, s45_paramName(r.fn, r.idx)))
 				}
